@@ -1,0 +1,33 @@
+//go:build verif
+
+package sourcerunner
+
+import (
+	"context"
+
+	"reduction.dev/reduction/batching"
+	"reduction.dev/reduction/proto"
+	"reduction.dev/reduction/proto/workerpb"
+)
+
+// VerifRouter exposes operatorCluster routing to the verification harness (build tag verif only).
+type VerifRouter struct {
+	cluster *operatorCluster
+	cancel  context.CancelFunc
+}
+
+func VerifNewRouter(keyGroupCount int, operators []proto.Operator, params batching.EventBatcherParams) *VerifRouter {
+	ctx, cancel := context.WithCancel(context.Background())
+	errChan := make(chan error, 16)
+	c := newOperatorCluster(ctx, &newClusterParams{
+		keyGroupCount:  keyGroupCount,
+		operators:      operators,
+		batchingParams: params,
+		errChan:        errChan,
+	})
+	return &VerifRouter{cluster: c, cancel: cancel}
+}
+
+func (r *VerifRouter) Route(key []byte, event *workerpb.Event) { r.cluster.routeEvent(key, event) }
+func (r *VerifRouter) Flush()                                  { r.cluster.flush() }
+func (r *VerifRouter) Close()                                  { r.cancel() }
